@@ -7,8 +7,18 @@ A *history* is JSON-able data (all times are integer MICROSECONDS):
   sched     ["TS", i]  TrampolineScheduler instance i (one trampoline, shared by all threads)
             ["CT", i]  CurrentThreadScheduler() instance i (one trampoline per calling thread)
             ["CTS"]    CurrentThreadScheduler.singleton() (thread-local trampoline)
-  when      ["now"] | ["rel", d] | ["abs", t]
+  when      ["now"] | ["rel", d] | ["abs", t]     optionally followed by the REPRESENTATION in which the time
+            is handed to the scheduler: "f" = float seconds, "i" = int seconds (whole seconds only);
+            default = timedelta / datetime.  The representation does not exist in the model (Core/Trampoline.v
+            works in microseconds): the same history must give the same observations whatever the representation.
   body      list of commands: what the action does when it runs
+
+Cancellation uses the PUBLIC handle: the disposable returned by schedule / schedule_relative /
+schedule_absolute (/ ensure_trampoline) is kept per item once the call has returned, and
+["cancel", r] disposes it; only while the scheduling call of item r has not returned yet (the
+action cancels itself or is cancelled by an action run inline by the same call) the internal
+ScheduledItem.cancel() is used.  Every schedule call passes a fresh `state` token; the action
+records whether it received exactly that object (`state` events of the raw trace).
 
 `run_k1` executes one history on ONE fresh thread of the real schedulers;
 `run_k3` executes one history per logical thread under the deterministic
@@ -60,6 +70,15 @@ class Env:
         self.depth = {}        # logical thread -> number of harness actions on its stack
         self.keep = []         # trampolines seen (kept alive so that id() stays unique)
         self.tids = {}
+        self.handles = {}      # item id -> disposable RETURNED by the schedule call (once it has returned)
+        self.toks = {}         # logical thread -> stack of open schedule calls ({"id": item id})
+        self.cancel_via = {"handle": 0, "item": 0}
+        self.reps = {"timedelta/datetime": 0, "float": 0, "int": 0}
+        self.state_ok, self.state_bad = 0, 0
+
+    def stats(self):
+        """last event of every raw trace: how cancels were issued, time representations, state tokens"""
+        return ("stats", dict(self.cancel_via), dict(self.reps), self.state_ok, self.state_bad)
 
     def me(self):
         if self.ctrl is not None:
@@ -153,6 +172,9 @@ def patched(env, k3mode=False):
             e = ENV
             self.rec_id = len(e.items)
             e.items.append(self)
+            toks = e.toks.get(e.me())
+            if toks and "id" not in toks[-1]:
+                toks[-1]["id"] = self.rec_id      # the item of the innermost open schedule call of this thread
             kind = getattr(scheduler, "_verif_kind", "CTS")
             e.trace.append(("create", self.rec_id, e.me(), e.tramp_id(scheduler), kind,
                             getattr(action, "label", None), e.us(duetime), e.clock))
@@ -204,9 +226,21 @@ def make_scheds(env, hists):
 # spies
 # --------------------------------------------------------------------------
 
-def make_action(env, label, body):
+class StateToken:
+    def __init__(self, label):
+        self.label = label
+
+
+def make_action(env, label, body, token=None):
     def action(scheduler, state=None):
         tid = env.me()
+        if token is not None:
+            # `state` pass-through (the statement of C30 is silent about it: recorded, see props/C30.py)
+            if state is token:
+                env.state_ok += 1
+            else:
+                env.state_bad += 1
+                env.trace.append(("state", label, tid, repr(state)))
         inline = sys._getframe(1).f_code.co_name == "ensure_trampoline"
         d = env.depth.get(tid, 0)
         trid = env.tramp_id(scheduler)
@@ -244,19 +278,42 @@ def exec_cmd(env, c):
     if k == "sched":
         env.yield_point()
         s = env.sched(c[1])
-        act = make_action(env, c[3], c[4])
+        token = StateToken(c[3])
+        act = make_action(env, c[3], c[4], token)
         w = c[2]
-        if w[0] == "now":
-            s.schedule(act)
-        elif w[0] == "rel":
-            s.schedule_relative(timedelta(microseconds=w[1]), act)
-        else:
-            s.schedule_absolute(env.utc0 + timedelta(microseconds=w[1]), act)
+        rep = w[2] if len(w) > 2 and w[0] != "now" else None
+        if rep == "i" and w[1] % US:
+            rep = None
+        if w[0] != "now":
+            env.reps[{"f": "float", "i": "int"}.get(rep, "timedelta/datetime")] += 1
+        # the due time ASKED for (a lower bound: the clock read here is not later than the scheduler's own)
+        asked = env.clock if w[0] == "now" else env.clock + max(0, w[1]) if w[0] == "rel" else w[1]
+        env.trace.append(("request", c[3], asked))
+        tok = {}
+        toks = env.toks.setdefault(env.me(), [])
+        toks.append(tok)
+        try:
+            if w[0] == "now":
+                h = s.schedule(act, token)
+            elif w[0] == "rel":
+                h = s.schedule_relative(as_time(w[1], rep, timedelta(microseconds=w[1])), act, token)
+            else:
+                h = s.schedule_absolute(as_time(w[1], rep, env.utc0 + timedelta(microseconds=w[1])), act, token)
+        finally:
+            toks.pop()
+        if "id" in tok:
+            env.handles[tok["id"]] = h
     elif k == "cancel":
         env.yield_point()
         if c[1] < len(env.items):
-            env.trace.append(("cancel", c[1], env.me()))
-            env.items[c[1]].cancel()
+            h = env.handles.get(c[1])
+            via = "item" if h is None else "handle"
+            env.cancel_via[via] += 1
+            env.trace.append(("cancel", c[1], env.me(), via))
+            if h is None:
+                env.items[c[1]].cancel()      # the scheduling call has not returned yet: no public handle exists
+            else:
+                h.dispose()
     elif k == "sleep":
         env.yield_point()
         env.clock += max(0, c[1])
@@ -270,9 +327,26 @@ def exec_cmd(env, c):
         env.trace.append(("required", env.me(), bool(b)))
     elif k == "ensure":
         env.yield_point(skip=1)
-        env.sched(c[1]).ensure_trampoline(make_action(env, c[2], c[3]))
+        tok = {}
+        toks = env.toks.setdefault(env.me(), [])
+        toks.append(tok)
+        try:
+            h = env.sched(c[1]).ensure_trampoline(make_action(env, c[2], c[3]))
+        finally:
+            toks.pop()
+        if "id" in tok and h is not None:
+            env.handles[tok["id"]] = h
     else:
         raise ValueError(c)
+
+
+def as_time(us, rep, default):
+    """the time `us` microseconds in the representation asked for"""
+    if rep == "f":
+        return us / US
+    if rep == "i" and us % US == 0:
+        return us // US
+    return default
 
 
 def thread_main(env, tid, hist):
@@ -282,6 +356,9 @@ def thread_main(env, tid, hist):
         except UserErr as e:
             env.obs.append(("exc", tid, e.code))
             env.trace.append(("exc", tid, e.code))
+        except Exception as e:      # noqa: BLE001  the scheduler itself raised on a legal call: a finding
+            env.obs.append(("exc", tid, -1))
+            env.trace.append(("crash", tid, repr(e)))
     env.trace.append(("done", tid))
 
 
@@ -314,6 +391,7 @@ def run_k1(c0, hist, timeout=10.0):
             env.trace.append(("hang",))
     if "error" in box:
         raise box["error"]
+    env.trace.append(env.stats())
     return env.obs, env.trace
 
 
@@ -333,6 +411,7 @@ def run_k3(c0, hists, chooser, max_steps=4000):
             sched = [c for c, _ in ctrl.trace]
             done = False
             env.trace.append(("deadlock",))
+    env.trace.append(env.stats())
     return sched, env.obs, env.trace, done, ctrl.trace
 
 
@@ -342,7 +421,8 @@ def run_k3(c0, hists, chooser, max_steps=4000):
 
 def oracle(trace, nthreads):
     """-> list of (signature, detail).  Checks, on the raw trace of the implementation:
-    nested / wrong-thread / early / cancelled-ran / order / lost / hang."""
+    nested / wrong-thread / early / cancelled-ran / order / lost / hang / scheduler-raised (an exception
+    that is not the one a `raise` command of the history throws leaves a scheduler call)."""
     bad = []
     items = {}          # id -> dict
     by_label = {}
@@ -354,9 +434,12 @@ def oracle(trace, nthreads):
     def flag(sig, detail):
         bad.append((sig, detail))
 
+    asked = {}          # label -> due time asked for by the history (independent of the item's duetime)
     for ev in trace:
         k = ev[0]
-        if k == "create":
+        if k == "request":
+            asked[ev[1]] = ev[2]
+        elif k == "create":
             _, i, tid, trid, kind, label, due, clk = ev
             items[i] = {"tid": tid, "tr": trid, "kind": kind, "label": label, "due": due, "clk": clk}
             by_label[label] = i
@@ -378,6 +461,9 @@ def oracle(trace, nthreads):
                 flag("wrong-thread", {"label": label, "scheduled_on": it["tid"], "ran_on": tid})
             if clk < it["due"]:
                 flag("early", {"label": label, "due": it["due"], "clock": clk})
+            elif label in asked and clk < asked[label]:
+                flag("early", {"label": label, "due_asked_for": asked[label], "due_of_the_item": it["due"],
+                               "clock": clk})
             if i in cancelled:
                 flag("cancelled-ran", {"label": label})
             if i in started:
@@ -404,6 +490,8 @@ def oracle(trace, nthreads):
                     for j in pend.get(tr, []):
                         dropped.add(j)
                     pend[tr] = []
+        elif k == "crash":
+            flag("scheduler-raised", {"thread": ev[1], "exception": ev[2]})
         elif k == "hang":
             flag("hang", {})
         elif k == "deadlock":
@@ -514,6 +602,25 @@ def has(h, kinds):
         if c[0] == "ensure" and has(c[3], kinds):
             return True
     return False
+
+
+def vary_rep(h, rng, p=0.5):
+    """the same history with some relative / absolute times handed over as float or int seconds"""
+    def w(x):
+        if x[0] == "now" or rng.random() >= p:
+            return x
+        rep = rng.choice(["f", "f", "i"])
+        if rep == "i" and x[1] % US:
+            rep = "f"
+        return [x[0], x[1], rep]
+
+    def c(x):
+        if x[0] == "sched":
+            return ["sched", x[1], w(x[2]), x[3], [c(y) for y in x[4]]]
+        if x[0] == "ensure":
+            return ["ensure", x[1], x[2], [c(y) for y in x[3]]]
+        return x
+    return [c(x) for x in h]
 
 
 class Gen:
